@@ -887,6 +887,16 @@ class CompositeEnvelope:
     def states(self) -> List[ProductState]:
         return CompositeEnvelope._containers[self.uid].states
 
+    def _check_members(self, *states: "BaseState") -> None:
+        """
+        Raises ValueError if any of the given states is not a part of this
+        composite envelope. States are compared by identity.
+        """
+        members = self.state_objs
+        for s in states:
+            if not any(s is m for m in members):
+                raise ValueError("The state is not a part of this composite envelope")
+
     def update_composite_envelope_pointers(self) -> None:
         """
         Updates all the envelopes to point to this composite envelope
@@ -1116,6 +1126,7 @@ class CompositeEnvelope:
         outcomes: Dict["BaseState", int]
         outcomes = {}
 
+        self._check_members(*states)
         for s in states:
             if getattr(s, "measured", False):
                 raise ValueError("The state has already been destructively measured")
@@ -1218,6 +1229,7 @@ class CompositeEnvelope:
         int: Outcome result of index
         """
 
+        self._check_members(*states)
         # Check if the operator dimensions match
         dim = jnp.prod(jnp.array([s.dimensions for s in states]))
         for op in operators:
@@ -1279,6 +1291,7 @@ class CompositeEnvelope:
         from photon_weave.state.fock import Fock
         from photon_weave.state.polarization import Polarization
 
+        self._check_members(*states)
         # Check the uniqueness of the states
         if len(states) != len(list(set(states))):
             raise ValueError("State list should contain unique elements")
@@ -1441,6 +1454,7 @@ class CompositeEnvelope:
             States onto which the operator should be applied
         """
 
+        self._check_members(*states)
         if len(states) == 1:
             if not isinstance(states[0].index, tuple):
                 assert hasattr(states[0], "apply_operation")
